@@ -758,7 +758,7 @@ def run(ctx):
         ctx.broken.append("library does not build from the working tree: " + liblog[-500:])
         return ctx.finish(LEVEL)
     prop_files = [f for f in ("Properties_C02.v",) if os.path.exists(os.path.join(core.COQ, f))]
-    proved = ctx.prove(prop_files, ["GenNum", "GenXpId"]) if prop_files else False
+    proved = ctx.prove(prop_files, ["GenNum", "GenXpId", "GenXpCp"]) if prop_files else False
     model, ok_m, mlog = core.build_model("xp")
     if not ok_m:
         ctx.broken.append("model extraction/build failed: " + mlog[-500:])
